@@ -24,6 +24,23 @@ Theorem tree_conserves : forall (h : N -> N -> N) (nt : nat) (ss : list sample) 
 Proof. exact post_process_conserves. Qed.
 Print Assumptions tree_conserves.
 
+(* What the stored numbers are, for EVERY hash (no hypothesis): a row's total is the sum over the
+   samples of value * (number of the sample's frames whose node id is the row's id), its self value
+   counts the sample's leaf frame only -- modulo 2^64.  With node ids injective on paths this reads:
+   total = weight of the samples passing through the node, self = weight of the samples ending there. *)
+Theorem stored_node_meaning : forall (h : N -> N -> N) (nt : nat) (ss : list sample) (k : nat) (n : node),
+  (k < nt)%nat -> In n (post_process h nt ss) ->
+  snd (val_at k n) = wrap64 (sumZ (map (fun s => nth k (s_values s) 0 * cnt (n_id n) (sample_ids h s)) ss)) /\
+  fst (val_at k n) = wrap64 (sumZ (map (fun s => nth k (s_values s) 0 * leaf_cnt (n_id n) (sample_ids h s)) ss)).
+Proof. exact PprofProofs.stored_node_meaning. Qed.
+Print Assumptions stored_node_meaning.
+
+(* ... and all self values together are the weight of the samples that have a frame (every hash) *)
+Theorem self_values_add_up : forall (h : N -> N -> N) (nt : nat) (ss : list sample) (k : nat),
+  (k < nt)%nat -> eqm (self_sum k (post_process h nt ss)) (weight k ss).
+Proof. exact self_sum_is_weight. Qed.
+Print Assumptions self_values_add_up.
+
 (* the hypothesis follows from injectivity of getNodeId on the occurring triples *)
 Theorem tree_conserves_injective : forall (h : N -> N -> N) (nt : nat) (ss : list sample) (k : nat),
   (k < nt)%nat -> node_id_injective_on h (triples h ss) ->
@@ -77,14 +94,15 @@ Theorem merge_order_irrelevant : forall (limit : Z) (rows rows' : list row) (fs 
 Proof. exact merge_order_irrelevant_proof. Qed.
 Print Assumptions merge_order_irrelevant.
 
-(* The guard is needed: at the node limit MergeTrie returns and the remaining rows are lost. The
-   real limit is 2 000 000, the same number the SQL puts in its LIMIT, so the guard is what the
-   query guarantees.  Refutation of the unguarded statement, for the model's limit parameter 1: *)
-Theorem merge_is_sum_refuted : exists (limit : Z) (rows : list row),
+(* The guard is needed, for every value of the node limit: with limit+1 rows of fresh node ids the
+   last one is dropped (MergeTrie returns at the limit). The real limit is 2 000 000, the same
+   number the SQL puts in its LIMIT (tied by translate/gen_proftree), so the guard is what the query
+   guarantees. *)
+Theorem merge_is_sum_refuted : forall limit : Z, 0 <= limit -> exists rows : list row,
   Forall row_in_range rows /\ exists p i,
   vals_at (m_nodes (merge_trie limit new_tree rows [])) p i <>
   (if has_key rows p i then Some (wrap64 (sum_self rows p i), wrap64 (sum_total rows p i)) else None).
-Proof. exact merge_is_sum_refuted_proof. Qed.
+Proof. exact merge_is_sum_refuted_any_limit. Qed.
 Print Assumptions merge_is_sum_refuted.
 
 (* Merging the stored rows of any list of profiles (each projected on its selected sample type, or
